@@ -165,11 +165,14 @@ def run(tier, seed):
                 "periodic column; three random out-of-domain points each",
         "exhaustive": False, "shards_accepted": accepted, "extension_field_statements": len(xsel),
         "verifier_model_proofs": len(vm["lines"]), "verifier_model_stages": vmodel._hist(vm["lines"]),
+        "prover_stage_proofs_judged": vm.get("prover_stage_judged", 0), "prover_stage_binding_test": vm.get("binding_test", {}),
         "known_finding_occurrences": v.n_known, "new_violations": v.n_new,
     }, time.time() - t0, violations=v.n_new,
         assumptions=["composition over ToyField and its quadratic / cubic extensions (generic code); extension fields for statements of at most 16 steps",
                      "the verifier's evaluation of the same expression: Trace_Verifier.tla recomputes the constraints on the out-of-domain frame of real proofs "
-                     "over the harness field (base field, Blake3) with the challenges the verifier drew"])
+                     "over the harness field (base field, Blake3) with the challenges the verifier drew",
+                     "prover stage: honest runs only; the auxiliary columns are rebuilt by the specification from the main columns and the recorded random elements "
+                     "(the harness's own auxiliary trace builder is not trusted), proofs of at most 64 steps (16 over the extensions)"])
     return rc
 
 
